@@ -521,7 +521,7 @@ pub fn serde(a: &Args, rep: &mut Report) {
             }
             let mut e = 0u64;
             let mut noise = Vec::new();
-            let how = hr.below(4);
+            let how = hr.below(5);
             if how == 3 && !place.is_empty() && place.verif_state().old.is_none() {
                 // destination mid-resize with an empty main table
                 let free = place.capacity() - place.len();
@@ -536,6 +536,23 @@ pub fn serde(a: &Args, rep: &mut Report) {
                 for x in noise {
                     place.remove(&x);
                 }
+            }
+            if how == 4 {
+                // destination whose OLD table is the larger allocation: grow, remove nearly
+                // everything, shrink the main table to fit
+                let mut e = 0u64;
+                while place.verif_state().old.is_none() && e < 5000 {
+                    e += 1;
+                    place.insert((1 << 41) + e);
+                }
+                let keys: Vec<u64> = place.iter().copied().collect();
+                let keep: Vec<u64> = keys.iter().copied().filter(|k| matches!(place.verif_locate(k), griddle::verif::Location::Old(_))).take(1 + n % 4).collect();
+                for k in keys {
+                    if !keep.contains(&k) {
+                        place.remove(&k);
+                    }
+                }
+                place.shrink_to_fit();
             }
             let place_split = place.verif_state().old.is_some();
             let items: Vec<u64> = s.iter().copied().collect();
@@ -561,6 +578,18 @@ pub fn serde(a: &Args, rep: &mut Report) {
             };
             if back != m {
                 return Err("map round trip through MapDeserializer differs".into());
+            }
+            // in-place deserialisation of a map (serde's default, or an override) into a
+            // destination with other contents in any phase: the result equals the original
+            {
+                let mut pmap = pm;
+                let md: serde::de::value::MapDeserializer<_, DeError> = serde::de::value::MapDeserializer::new(m.iter().map(|(a, b)| (*a, *b)));
+                if let Err(e) = <HashMap<u64, u64, Bh> as Deserialize>::deserialize_in_place(md, &mut pmap) {
+                    return Err(format!("map deserialize_in_place failed: {e}"));
+                }
+                if pmap != m || pmap.len() != m.len() {
+                    return Err(format!("map deserialize_in_place left {} elements, the input had {}", pmap.len(), m.len()));
+                }
             }
             // a hasher type whose Default instances differ (like std's RandomState), fed by
             // deserializers without a size hint so that the result is still mid-resize when the
